@@ -15,12 +15,13 @@ META = dict(
     id='C05',
     level='proof',
     technique='Coq proof (account-tree totals, running totals and lot stripping of the report model refine per-commodity sums over the selected postings) + differential correspondence of the extracted model against ledger bal/reg + Fractions oracle across bal and reg',
-    level_text='Theorems in coq/Properties/Properties_C05.v state, for all posting lists and all option records, that the model of account_t::amount/total, calc_posts, the limit predicates, the -B amount expression and strip_annotations satisfies: an account total is the per-commodity sum over the selected postings of its sub-tree; a parent total is its own amount plus its children\'s totals; the n-th running total is the sum of the first n row amounts and the last one is the grand total; the balance of an account equals the sum of the register rows under it (parametric in the selection predicate and the amount expression, so for every option combination); --flat/--depth/--empty only choose rows; stripping lots preserves every per-base-commodity sum. The model is tied to the code by comparing every bal row, total line and reg row (exact rationals, precision counters, row order, which rows are printed) of freshly built ledger with the extracted model on thousands of generated (journal, option set) pairs.',
+    level_text='Theorems in coq/Properties/Properties_C05.v state, for all posting lists and all option records, that the model of account_t::amount/total, calc_posts, the limit predicates, the -B amount expression and strip_annotations satisfies: an account total is the per-commodity sum over the selected postings of its sub-tree; a parent total is its own amount plus its children\'s totals; the n-th running total is the sum of the first n row amounts and the last one is the grand total; the balance of an account equals the sum of the register rows under it (parametric in the selection predicate and the amount expression, so for every option combination); --flat/--depth/--empty only choose rows; stripping lots preserves every per-base-commodity sum. Model/Deferred.v transcribes how postings reach account->posts (add_post, or add_deferred_post keyed by the transaction id and apply_deferred_posts for `<Account>` postings, shape facts regenerated into Gen/DeferredPosts.v): account->posts of every account is a permutation of the journal\'s postings to it, so every identity also holds between the balance over account->posts and the register over xact->posts. The model is tied to the code by comparing every bal row, total line and reg row (exact rationals, precision counters, row order, which rows are printed) of freshly built ledger with the extracted model on thousands of generated (journal, option set) pairs.',
     level_note='Trusted: Coq kernel; extraction + OCaml driver and the python harness for the correspondence; the journal reader and xact_t::finalize are outside the model (the model input is the posting list as finalize leaves it, predicted by the harness: lot annotation {price} [date] from a cost, cost = per-unit x quantity with summed precision) and are validated through the same comparison; account/payee patterns are literal case-insensitive substrings; unordered_map / pointer-ordered map iteration orders are unspecified (results that depend on them are compared as sets).',
     design_ref='DESIGN.md section 7 C05',
     assumptions=['directives in the generated journals: bucket / A / account+default, apply account (one level), alias (defined at top level), year / Y, apply tag',
                  'query patterns are literal [A-Za-z0-9] substrings (regex = substring)',
                  'commodity symbols avoid the predefined time commodities s/m/h',
+                 'transaction ids are distinct (a second transaction with the UUID of an earlier one is outside the model)',
                  'a posting carries either a lot annotation or a cost, not both (the gain/loss adjustment of finalize is C01 territory)'],
 )
 
@@ -62,10 +63,14 @@ def amt_text(q, dec, sym, side):
 
 
 class Post:
-    __slots__ = ('acct', 'virt', 'state', 'q', 'dec', 'comm', 'lot', 'cost', 'inferred', 'rname')
+    __slots__ = ('acct', 'virt', 'state', 'q', 'dec', 'comm', 'lot', 'cost', 'inferred', 'rname', 'deferred', 'gen')
 
-    def __init__(self, acct, virt, state, q, dec, comm, lot=None, cost=None, inferred=False, rname=None):
+    def __init__(self, acct, virt, state, q, dec, comm, lot=None, cost=None, inferred=False, rname=None,
+                 deferred=False, gen=0):
         self.acct, self.virt, self.state, self.q, self.dec, self.comm = acct, virt, state, q, dec, comm
+        self.deferred = deferred   # POST_DEFERRED: written <Account>; reaches account->posts at the end of the parse
+        self.gen = gen             # 0 written with its amount | 1 written WITHOUT amount (finalize computes it)
+                                   # | 2 not written: the further balancing postings finalize generates
         self.inferred = inferred   # ITEM_INFERRED: added by finalize() for the default account, not written
         self.rname = rname         # the account as written (alias, or inside `apply account`)
         self.lot = lot        # None | dict(price=(q, dec, comm) | None, date=str | None, tag=str | None)
@@ -506,6 +511,129 @@ def gen_tree_opts(rng, j):
     return o
 
 
+def elide_into(posts, acct, state, deferred=True):
+    """complete `posts` (plain amounts) the way finalize() does for ONE posting written without an
+    amount: the balance per commodity in symbol order (balance_t::sorted_amounts); the first
+    commodity fills the written posting, every further one is a generated posting with the same
+    account, flags and state, appended to the transaction (add_balancing_post, xact.cc:125-155)"""
+    res = {}
+    for p in posts:
+        if p.virt == 1:
+            continue
+        e = res.setdefault(p.comm[0], [F(0), 0, p.comm])
+        e[0] += p.q
+        e[1] = max(e[1], p.dec)
+    first = None
+    tail = []
+    for sym in sorted(res):
+        q, dec, comm = res[sym]
+        np = Post(acct, 0, state, -q, dec, comm, deferred=deferred, gen=1 if first is None else 2)
+        if first is None:
+            first = np
+        else:
+            tail.append(np)
+    return first, tail
+
+
+def gen_deferred_journal(rng):
+    """the class: postings written with their account in angle brackets (`<Account>`, POST_DEFERRED).
+    finalize() keeps them out of account->posts until the file has been read
+    (account_t::add_deferred_post, keyed by the transaction's id = UUID tag or sequence number;
+    apply_deferred_posts).  Shapes: any number of deferred postings per transaction, spread over
+    accounts or several to ONE account (same or different commodities, with costs / lots as the
+    base journal has them), a deferred posting without amount that absorbs one or several
+    commodities (finalize generates the further postings with the same account and flags), a
+    deferred and an ordinary posting to the same account, transactions with and without a UUID
+    (ids compare as strings: "10" < "9"), parents and children both deferred."""
+    j = gen_journal(rng)
+    comms = j['comms']
+    accts = list(j['accts'])
+    for x in j['xacts']:
+        cand = [p for p in x['posts'] if p.virt == 0]
+        if not cand or rng.random() < 0.3:
+            continue
+        first = rng.choice(cand)
+        first.deferred = True
+        for p in cand:
+            if p is first or rng.random() < 0.5:
+                continue
+            p.deferred = True
+            if rng.random() < 0.65:
+                p.acct = first.acct           # two or more deferred postings of one transaction to one account
+            elif rng.random() < 0.3 and len(first.acct) > 1:
+                p.acct = first.acct[:-1]      # ... and to its parent
+    # directed transactions
+    for k in range(rng.choice([1, 2, 2, 3, 4])):
+        date = '2020/%02d/%02d' % (rng.randrange(1, 13), rng.randrange(1, 29))
+        xstate = rng.choice(['u', 'u', 'c', 'p'])
+        shape = rng.choice(['same-acct', 'same-acct', 'elided-multi', 'elided-multi', 'elided-one', 'mixed'])
+        cs = rng.sample(COMMS, rng.choice([2, 2, 3])) if shape != 'elided-one' else rng.sample(COMMS, 1)
+        posts = []
+        for c in cs:
+            for _ in range(rng.choice([1, 1, 2])):
+                q = F(rng.randrange(1, 90000), 10 ** c[2])
+                posts.append(Post(rng.choice(accts), 0, rng.choice(['u', 'u', 'c', 'p']), q, c[2], c))
+        target = rng.choice(accts)
+        if shape in ('elided-multi', 'elided-one'):
+            first, tail = elide_into(posts, target, rng.choice(['u', 'u', 'c', 'p']))
+            if shape == 'elided-multi' and rng.random() < 0.4:
+                # a written deferred posting to the same account as well (balanced by the elided one)
+                c = rng.choice(cs)
+                posts.append(Post(target, 0, 'u', F(rng.randrange(1, 5000), 10 ** c[2]), c[2], c, deferred=True))
+                first, tail = elide_into(posts, target, first.state)
+            posts.insert(rng.randrange(len(posts) + 1), first)
+            posts += tail
+        else:
+            # one written deferred posting per commodity, all to `target` (the balance of each commodity)
+            res = {}
+            for p in posts:
+                e = res.setdefault(p.comm[0], [F(0), p.comm])
+                e[0] += p.q
+            for sym, (q, c) in sorted(res.items()):
+                a = target
+                if shape == 'mixed' and rng.random() < 0.4:
+                    a = rng.choice(accts)
+                d = not (shape == 'mixed' and rng.random() < 0.3)
+                if rng.random() < 0.3:
+                    # split into two postings
+                    h = F(rng.randrange(1, 999), 10 ** c[2])
+                    posts.append(Post(a, 0, rng.choice(['u', 'c', 'p']), -h, c[2], c, deferred=d))
+                    q -= h
+                posts.insert(rng.randrange(len(posts) + 1), Post(a, 0, rng.choice(['u', 'u', 'c', 'p']), -q, c[2], c, deferred=d))
+        j['xacts'].insert(rng.randrange(len(j['xacts']) + 1),
+                          dict(date=date, state=xstate, payee='%s %d' % (rng.choice(PAYEES), 70 + k), posts=posts))
+        comms = list({c: 1 for c in comms + cs})
+    uu = 0
+    for x in j['xacts']:
+        if rng.random() < 0.3:
+            x['uuid'] = rng.choice(['u%d', 'U-%d', '0%d', 'id %d']) % uu
+            uu += 1
+    j['comms'] = comms
+    j['accts'] = sorted({p.acct for x in j['xacts'] for p in x['posts']})
+    return j
+
+
+def gen_deferred_opts(rng, j):
+    r = rng.random()
+    if r < 0.3:
+        return Opt()
+    if r < 0.55:
+        o = Opt()
+        k = rng.randrange(5)
+        if k == 0:
+            o.flat = True
+        elif k == 1:
+            o.real = True
+        elif k == 2:
+            o.state = rng.choice(['cleared', 'uncleared', 'pending'])
+        elif k == 3:
+            o.flat, o.depth = True, rng.choice([1, 2, 3])
+        else:
+            o.depth = rng.choice([1, 2, 3])
+        return o
+    return gen_opts(rng)
+
+
 STATE_TXT = {'u': '', 'c': '* ', 'p': '! '}
 
 
@@ -514,10 +642,17 @@ def render(j):
     for x in j['xacts']:
         out += x.get('pre', [])
         out.append('%s %s%s' % (x.get('date_text', x['date']), STATE_TXT[x['state']], x['payee']))
+        if x.get('uuid'):
+            out.append('    ; UUID: ' + x['uuid'])
         for p in x['posts']:
-            if p.inferred:
+            if p.inferred or p.gen == 2:
                 continue
             name = p.rname or ':'.join(p.acct)
+            if p.deferred:
+                name = '<' + name + '>'
+            if p.gen == 1:
+                out.append('    %s%s' % (STATE_TXT[p.state], name))
+                continue
             if p.virt == 1:
                 name = '(' + name + ')'
             elif p.virt == 2:
@@ -547,7 +682,7 @@ def pool_of(j):
     pool = {}
     for x in j['xacts']:
         for p in x['posts']:
-            if not p.inferred:      # an inferred amount is computed, not parsed: it teaches nothing
+            if not p.inferred and not p.gen:      # an inferred / calculated amount is computed, not parsed: it teaches nothing
                 pool[p.comm[0]] = max(pool.get(p.comm[0], 0), p.dec)
     return pool
 
@@ -556,8 +691,20 @@ def hx(s):
     return s.encode() if s else b''
 
 
+def xact_ids(j):
+    """item_t::id() of every transaction: its UUID tag, else its sequence number (textual.cc: one
+    number per transaction and per written posting line, counted from 1; the directives these
+    journals use take none)"""
+    ids, seq = [], 1
+    for x in j['xacts']:
+        ids.append(x.get('uuid') or str(seq))
+        seq += 1 + sum(1 for p in x['posts'] if not p.inferred and p.gen != 2)
+    return ids
+
+
 def posts_sx(j):
     out = []
+    ids = xact_ids(j)
     for xi, x in enumerate(j['xacts']):
         for p in x['posts']:
             key = comm_key(p, x['date'])
@@ -568,7 +715,8 @@ def posts_sx(j):
             else:
                 cost = 'none'
             out.append([xi, hx(x['payee']), x['state'], p.state, [hx(s) for s in p.acct], 1 if p.virt else 0, amt, cost,
-                        int(x['date'].replace('/', '')), 1 if p.inferred else 0])
+                        int(x['date'].replace('/', '')), 1 if p.inferred else 0,
+                        1 if p.deferred else 0, hx(ids[xi])])
     return out
 
 
@@ -829,6 +977,52 @@ def oracle_filterset(j, fk, aux_bal, reg, viol, case):
     return grand
 
 
+DEFERRED_RE = re.compile(r'^\s+(?:[*!]\s*)?<([^>]+)>(?:\s{2,}|\t|$)')
+
+
+def oracle_deferred(text, fk, aux_bal, reg, viol, case):
+    """the property on the accounts that receive deferred postings (`<Account>` lines of the
+    journal text): the own amount and the balance the balance report gives such an account are,
+    commodity by commodity, the sums of the register's postings to it (and below it), and the
+    register has at least as many postings to it as the journal has deferred lines for it (when
+    nothing filters).  Written from the property text and the journal text, not from the model."""
+    def bad(key, desc, observed, required):
+        viol.append(dict(key=key, desc=desc, case=case, observed=str(observed), required=str(required)))
+    lines = {}
+    for l in text.split('\n'):
+        m = DEFERRED_RE.match(l)
+        if m:
+            lines[m.group(1)] = lines.get(m.group(1), 0) + 1
+    if not lines:
+        return 0
+    regd = [(r[0], denote(canon_value(r[1]))) for r in reg]
+    rows = {r[0]: (denote(canon_value(r[1])), denote(canon_value(r[3]))) for r in aux_bal if r[0] != ''}
+    for a, n in sorted(lines.items()):
+        own, sub = {}, {}
+        cnt = 0
+        for ra, amt in regd:
+            if amt is None:
+                continue
+            if ra == a:
+                own = dadd(own, amt)
+                cnt += 1
+            if under(a, ra):
+                sub = dadd(sub, amt)
+        if fk == '' and cnt < n:
+            bad('deferred-posting-missing-from-register', 'the journal defers %d postings to %s, the register has %d postings to it' % (n, a, cnt), cnt, n)
+        got = rows.get(a)
+        if got is None:
+            # `bal --empty` lists every account that has a selected posting
+            if cnt:
+                bad('deferred-account-missing-from-balance', 'the register has %d postings to %s, the balance report (--empty) has no line for it' % (cnt, a), 'no line', own)
+            continue
+        if got[1] != own:
+            bad('deferred-account-own-amount-vs-register', 'own amount of %s (receives deferred postings) differs from the sum of the register postings to it' % a, got[1], own)
+        if got[0] != sub:
+            bad('deferred-account-balance-vs-register', 'balance of %s (receives deferred postings) differs from the sum of the register postings to it and its sub-accounts' % a, got[0], sub)
+    return len(lines)
+
+
 def oracle_optset(o, bal, reg, regd_rows, grand_f, viol, case):
     def bad(key, desc, observed, required):
         viol.append(dict(key=key, desc=desc, case=case, observed=str(observed), required=str(required)))
@@ -1044,6 +1238,8 @@ def one_journal(ctx, res, j, opts, tag):
         viol = []
         if f not in done_f:
             g = oracle_filterset(j, o.filter_key(), aux_bal, reg, viol, dict(case, args='--empty ' + o.filter_key()))
+            if oracle_deferred(text, o.filter_key(), aux_bal, reg, viol, dict(case, args='--empty ' + o.filter_key())):
+                res.count('oracle:deferred-accounts-checked')
             if o.basis:
                 # with rounding on (<Adjustment>/<Revalued> rows present) the last displayed running
                 # total still equals the displayed grand total
@@ -1152,6 +1348,15 @@ def one_journal(ctx, res, j, opts, tag):
             res.count('multi-commodity-total')
         if any('~' in bytes.fromhex(h).decode('utf-8', 'replace') for r in reg for h in re.findall(r'A:([0-9a-f]+):', canon_value(r[1]))):
             res.count('lot-annotated-rows')
+        if not o.empty and len(reg_ne) < len(reg):
+            # rows `reg` does not print without --empty (display_filter_posts: the display amount
+            # prints as zero): count those whose exact amount is NOT zero - they are in every total
+            k = 0
+            for r in reg:
+                if k < len(reg_ne) and (reg_ne[k][0], reg_ne[k][1]) == (r[0], r[1]):
+                    k += 1
+                elif denote(canon_value(r[1])):
+                    res.count('display:nonzero-posting-hidden-as-display-zero')
         if nsel >= 2 and (multi or nested):
             res.nontrivial.add(o.key() + '\n' + text)
         if len(res.samples) < 4 and nsel >= 3 and nested:
@@ -1162,7 +1367,7 @@ def run(ctx, n_override=None):
     rng = ctx.rng
     res = lib.Result()
     res.rule = ('generated accepted journals (1-12 transactions, account trees of depth 1-6, 1-5 commodities, lot annotations, '
-                '@/@@ costs, virtual and balanced-virtual postings, state flags) x option sets over --real, --cleared/--uncleared/'
+                '@/@@ costs, virtual and balanced-virtual postings, deferred `<Account>` postings incl. amount-less ones, state flags) x option sets over --real, --cleared/--uncleared/'
                 '--pending, -B, --lots/--lot-prices/--lot-dates/--lot-notes, --flat, --depth n, --empty, an account or @payee term; '
                 'non-trivial = at least two selected postings and a multi-commodity total or nested displayed accounts; '
                 'distinct by (option set, journal text)')
@@ -1173,10 +1378,11 @@ def run(ctx, n_override=None):
         directed = kind < 0.15
         treej = 0.15 <= kind < 0.35
         bucketj = 0.35 <= kind < 0.55
+        deferj = 0.55 <= kind < 0.73
         j = (gen_directed(rng) if directed else gen_tree_journal(rng) if treej else
-             gen_bucket_journal(rng) if bucketj else gen_journal(rng))
+             gen_bucket_journal(rng) if bucketj else gen_deferred_journal(rng) if deferj else gen_journal(rng))
         res.count('journal:directed' if directed else 'journal:display-tree' if treej else
-                  'journal:directives+bucket' if bucketj else 'journal:random')
+                  'journal:directives+bucket' if bucketj else 'journal:deferred-postings' if deferj else 'journal:random')
         res.count('tree-depth:%d' % max(len(a) for a in j['accts']))
         res.count('commodities:%d' % len(j['comms']))
         opts = [gen_opts(rng) for _ in range(per)]
@@ -1185,6 +1391,13 @@ def run(ctx, n_override=None):
         if bucketj:
             opts = [gen_bucket_opts(rng, j) for _ in range(per)]
             res.count('inferred-postings', sum(1 for x in j['xacts'] for p in x['posts'] if p.inferred))
+        if deferj:
+            opts = [gen_deferred_opts(rng, j) for _ in range(per)]
+            res.count('deferred-postings', sum(1 for x in j['xacts'] for p in x['posts'] if p.deferred))
+            res.count('deferred:transactions-with-2+-deferred-postings-to-one-account',
+                      sum(1 for x in j['xacts'] if any(n > 1 for n in
+                          __import__('collections').Counter(p.acct for p in x['posts'] if p.deferred).values())))
+            res.count('deferred:generated-balancing-postings', sum(1 for x in j['xacts'] for p in x['posts'] if p.gen == 2))
         if rng.random() < 0.3:
             opts[0] = Opt()
         one_journal(ctx, res, j, opts, ji)
@@ -1262,6 +1475,7 @@ def replay(ctx, obj):
     exist = accounts_of(l.strip() for l in blocks[3].split('\n') if l.strip())
     viol = []
     g = oracle_filterset(None, '', aux_bal, reg, viol, case)
+    oracle_deferred(case['journal'], o.filter_key(), aux_bal, reg, viol, case)
     regd = parse_rows(blocks[4], 7)[0] if o.depth is not None else None
     oracle_optset(o, bal, reg, regd, g, viol, case)
     oracle_tree(o, bal, reg, aux_bal, exist, g, viol, case)
